@@ -133,6 +133,18 @@ func (s *Store) Put(c cid.Cid, data []byte) {
 }
 
 // PutBlock hashes data and stores it under a CID of the given version/codec.
+// PutAs stores data under the given CID (whatever its hash function says).
+func (s *Store) PutAs(c cid.Cid, data []byte) cid.Cid {
+	s.mu.Lock()
+	defer s.mu.Unlock()
+	k := c.KeyString()
+	if _, ok := s.blocks[k]; !ok {
+		s.order = append(s.order, c)
+	}
+	s.blocks[k] = append([]byte(nil), data...)
+	return c
+}
+
 func (s *Store) PutBlock(version int, codec uint64, data []byte) cid.Cid {
 	mh, err := multihash.Sum(data, multihash.SHA2_256, -1)
 	if err != nil {
